@@ -1,13 +1,18 @@
 #!/bin/bash
 # seed_test.sh <prop> <patch.diff> [seed]  -- run ./check <prop> against a scratch worktree of /repo with the patch applied.
 # (Other builders work against /repo at the same time, so seeded changes are never applied to /repo itself while they run.)
+# The check runs from a PRIVATE COPY of /verif: the generated Coq files (coq/Gen), the compiled proofs and the extracted models are
+# rebuilt from the patched sources, and must not be seen by checks that are running against /repo from /verif at the same time.
 set -u
 prop=$1; patch=$2; seed=${3:-1}
-wt=/var/tmp/wt-seed-$prop; cache=/var/tmp/kpu-kenlm-verif-seed-$prop
+wt=/var/tmp/wt-seed-$prop; cache=/var/tmp/kpu-kenlm-verif-seed-$prop; vcopy=/var/tmp/verif-seed-$prop
 if [ ! -d $wt ]; then git -C /repo worktree add --detach $wt HEAD >/dev/null 2>&1; fi
 git -C $wt reset -q --hard; git -C $wt checkout -q --detach $(git -C /repo rev-parse HEAD)
+case "$patch" in /*) ;; *) patch=$(pwd)/$patch ;; esac
 if ! git -C $wt apply --3way "$patch" 2>/dev/null && ! git -C $wt apply "$patch"; then echo "PATCH-DOES-NOT-APPLY"; exit 3; fi
-cd /verif && VERIF_SEED=$seed VERIF_REPO=$wt VERIF_CACHE=$cache timeout 1500 ./check $prop
+mkdir -p $vcopy
+rsync -a --delete --exclude .git --exclude replays --exclude seeded --exclude scratch /verif/ $vcopy/
+cd $vcopy && VERIF_SEED=$seed VERIF_REPO=$wt VERIF_CACHE=$cache timeout 1500 ./check $prop
 rc=$?
 git -C $wt reset -q --hard
 exit $rc
